@@ -164,6 +164,20 @@ def gen_C04(rng, tier):
         out.append(('padd %d %d %d %d' % (P + (0, 1)), 'padd/identity'))
         for T in rng.sample(pts, 3 if tier == 'quick' else 10):
             out.append(('padd %d %d %d %d' % (P + T), 'padd/generic'))
+    # arbitrary projective representatives (the struct fields are exported): Z on the
+    # boundaries of the field and of the Montgomery representation, Z = 0 (degenerate)
+    zs = [1, 2, Q - 1, (Q + 1) // 2] + [v % Q for v in mont_special()] + [rng.randrange(1, Q) for _ in range(3 if tier == 'quick' else 12)]
+    for P in rng.sample(pts, min(len(pts), 4 if tier == 'quick' else 12)) + [(0, 1), (0, Q - 1)]:
+        for z in zs:
+            if z == 0:
+                continue
+            out.append(('paffine %d %d %d' % (P[0] * z % Q, P[1] * z % Q, z), 'paffine/scaled-point'))
+            T = rng.choice(pts)
+            z2 = rng.choice(zs) or 1
+            out.append(('paddproj %d %d %d %d %d %d' % (P[0] * z % Q, P[1] * z % Q, z, T[0] * z2 % Q, T[1] * z2 % Q, z2), 'paddproj/scaled-points'))
+        out.append(('paffine %d %d 0' % P, 'paffine/Z=0'))
+    out.append(('paffine 0 0 0', 'paffine/Z=0'))
+    out.append(('paffine %d %d 0' % (rng.randrange(Q), rng.randrange(Q)), 'paffine/Z=0'))
     for P in pts:
         ss = scalars(rng, tier)
         for s in (rng.sample(ss, 6) if tier == 'quick' else ss):
@@ -579,9 +593,23 @@ def gen_C11(rng, tier):
             out.append(('%s cmp %d %d' % (pre, r, r), 'cmp/same'))
         for v in [0, 1, 2**32, 2**63, 2**64 - 1] + [rng.randrange(2**64) for _ in range(5)]:
             out.append(('%s setuint64 %d' % (pre, v), 'SetUint64'))
+        # the rest of the exported surface of the element types (reads of the stored limbs)
+        for r in rng.sample(raws, 6) + [0, 1, p - 1]:
+            for i in (0, 1, 63, 64, 65, 127, 128, 191, 192, 253, 255, 256, 2**63, 2**64 - 1, rng.randrange(256)):
+                out.append(('%s bit %d %d' % (pre, r, i), 'Bit'))
+            out.append(('%s bitlen %d' % (pre, r), 'BitLen'))
+        for k in (0, 1, 63, 64, 127, 128, 191, 192, 253):
+            if 2**k < p:
+                out.append(('%s bitlen %d' % (pre, 2**k), 'BitLen/power-of-two'))
+                out.append(('%s bitlen %d' % (pre, 2**k - 1 if k else 0), 'BitLen/power-of-two'))
+        out.append(('%s modulus' % pre, 'Modulus'))
+        out.append(('%s one' % pre, 'One'))
     for kind, arg in (('1', ff_mont(5)), ('2', ff_mont(Q - 1)), ('3', 2**64 - 1), ('4', -7), ('5', hexb(b'-12345')), ('5', hexb(b'zz')),
                       ('6', -Q - 3), ('7', 2**300), ('8', hexb(b'\x01\x02')), ('9', 0)):
         out.append(('ff asm setinterface %s %s' % (kind, arg), 'SetInterface/kind' + kind))
+    for kind, arg in (('1', 5 * 2**64 % PG), ('2', (PG - 1) * 2**64 % PG), ('3', 2**64 - 1), ('4', -7), ('5', hexb(b'-12345')), ('5', hexb(b'zz')),
+                      ('6', -PG - 3), ('7', 2**300), ('8', hexb(b'\x01\x02')), ('8', hexb(bytes(range(1, 20)))), ('9', 0)):
+        out.append(('ffg setinterface %s %s' % (kind, arg), 'SetInterface/kind' + kind))
     for _ in range(5 if tier == 'quick' else 100):
         l = [rng.choice(big_ints(rng, 'quick', Q)) for _ in range(rng.randrange(0, 6))]
         out.append(('elarr ' + lst(l), 'BigIntArrayToElementArray'))
